@@ -113,7 +113,35 @@ def check_suffix(ck, prog):
     ck.ob("C19-SUF", "unknown-suffix-skipped",
           any(c.get("fn") == "message_warning" for b, i, e in un.iter_elems() for c in ex.calls(e, into_refs=False)),
           common.where(un), "unknown suffix: warning and NULL", key="SUF:unknown")
-    ck.floor("C19-SUF", 14)
+    # compressing: a name that already ends with the custom suffix is refused whatever the format is
+    cn = prog.fn("compressed_name", "suffix.c", target="xz")
+    ck.saw_function(cn)
+    tcs = [x for x in call_blocks(cn, "test_suffix") if "custom_suffix" in ex.show(x[2]["args"][0])]
+    if not tcs:
+        raise AnalysisBroken("compressed_name: test_suffix(custom_suffix, ...) not found")
+    B = tcs[0][0].id
+    dom = cfg.dominators(cn)
+    extra = None
+    for d in dom.get(B, ()):
+        blk = cn.blocks[d]
+        if d == B or not blk.term or "cond" not in blk.term or len(blk.succs) != 2:
+            continue
+        r = [(y == B or (y is not None and B in cfg.reachable(cn, [y]))) for y in blk.succs]
+        if r[0] == r[1]:
+            continue
+        # an assertion (the other successor aborts: it cannot reach the function's exit) decides nothing
+        other = blk.succs[1] if r[0] else blk.succs[0]
+        if other is None or (other != cn.exit and cn.exit not in cfg.reachable(cn, [other])):
+            continue
+        names = {x["n"] for x in ex.walk(blk.term["cond"]) if x.get("k") == "var"}
+        if names - {"custom_suffix"}:
+            extra = extra or blk.term["cond"]
+    ck.ob("C19-SUF", "custom-suffix-always-tested", extra is None, common.where(cn, extra),
+          "compressed_name: test_suffix(custom_suffix, ...) depends only on custom_suffix != NULL" if extra is None else
+          "compressed_name(): the test for a name that already ends with the custom suffix is skipped unless `%s`: with that "
+          "condition false a file that already carries the --suffix is compressed again (name.S.S) and the source removed "
+          "without the documented warning" % ex.show(ex.strip(extra)), key="SUF:custom-suffix-always-tested")
+    ck.floor("C19-SUF", 15)
 
 
 def _lin(n, sign=1):
@@ -405,6 +433,17 @@ def check_attr_branch(ck, prog):
             hit = True
             break
         st.extend(y for y in f.blocks[x].succs if y is not None)
+    # whether the group has to be changed is decided from the group the TARGET actually has (a setgid directory or BSD
+    # group semantics give the new file the directory's group, not the process's)
+    pre = [b for b in f.blocks.values() if b.term and "cond" in b.term and len(b.succs) == 2 and grp.id in b.succs and b.id != grp.id]
+    ctxt = " ".join(ex.show(ex.strip(b.term["cond"])) for b in pre)
+    okg = bool(pre) and "dest_st.st_gid" in ctxt and "src_st.st_gid" in ctxt
+    ck.ob("C19-ATTR", "group-compared-with-target", okg, common.where(f, pre[0].term["cond"] if pre else grp.term["cond"]),
+          "io_copy_attrs: fchown(group) is skipped only when dest_st.st_gid == src_st.st_gid" if okg else
+          "io_copy_attrs(): the decision to call fchown(dest, -1, src gid) is `%s`, not a comparison of the target's own group "
+          "(pair->dest_st.st_gid) with the source's: in a setgid directory the target silently keeps the directory's group "
+          "and receives the source's group permission bits" % (ctxt or "unconditional"),
+          key="ATTR:group-compared-with-target")
     ck.ob("C19-ATTR", "full-mode-needs-group", not hit, common.where(f, grp.term["cond"]),
           "io_copy_attrs: after a failed fchown(group) the unrestricted mode is unreachable" if not hit else
           "io_copy_attrs(): `mode = st_mode & 0777` is reachable after fchown(dest, -1, src gid) FAILED (an additional test "
